@@ -68,6 +68,7 @@ def run(rep):
              for v in sk.scenario_variants(b)]
     rep.extra['behaviours_replayed'] = sum(1 for b in behs if sk.scenario_realisable(b))
     rep.extra['behaviour_realisations'] = len(items)
+    items += forms_items(rep)
     items += [{'case': c} for c in sk.classics()]
     n_random = 400 if rep.tier == 'quick' else 5000
     items += [{'case': c} for c in sk.random_cases(rep.seed, n_random, contractive_share=0.4)]
@@ -77,6 +78,22 @@ def run(rep):
     rep.extra['user_function_systems'] = sum(1 for it in items if it['case']['funcs'])
     if rep.tier == 'thorough':
         harvest_part(rep)
+
+
+def forms_items(rep):
+    """spec/SolverForms.tla: all shapes "A = <form>(S), U = 0.25*U + <position>(A)" of the bounded instance"""
+    sk.expect_counterexample(rep, core, 'MC_SolverForms_seeded.cfg', 'C02_IteratedSystemEquivalent', module='MC_SolverForms')
+    cfg = 'MC_SolverForms_quick.cfg' if rep.tier == 'quick' else 'MC_SolverForms_thorough.cfg'
+    res = core.tlc('MC_SolverForms', cfg, workers=1, tag='c02f')
+    if res.violated:
+        raise core.MachineryError('spec invariant %s violated in %s' % (res.violated, cfg))
+    rep.add_tlc(res, 'exhaustive ' + cfg)
+    behs = list({core.canonical(b): b for b in core.json_of_printed(res, 'BEH')}.values())
+    if not behs:
+        raise core.MachineryError('TLC emitted no behaviours for ' + cfg)
+    rep.extra['form_shapes_replayed'] = len(behs)
+    # (the SolveEquation() cross-run is left to the other case families)
+    return [{'case': sk.form_case(b), 'behaviour': b, 'whole': False} for b in behs]
 
 
 def harvest_part(rep):
